@@ -114,7 +114,7 @@ def run(chk):
         if name == "knn":
             return {"metric": str(rng.choice(list(METRICS))), "k": int(rng.integers(1, min(8, N - 2) + 1))}
         if name == "geometric_knn":
-            return {"k": int(rng.integers(1, 4))}
+            return {"k": int(rng.choice([1, 2, 3, 3, 4, 6]))}      # incl. the dispatcher's default 6 and k >= 3 (shared neighbourhoods)
         if name == "kde":
             return {"bandwidth": (str(rng.choice(["silverman", "scott"])) if rng.random() < 0.6 else float(rng.uniform(0.2, 2.0)))}
         return {}
@@ -142,7 +142,7 @@ def run(chk):
                 return float(f(X, Y, None, **s))     # (geometric_knn: s is empty on this route, see K1 of C09)
             return float(direct[name](X, Y, Z, **s))
 
-    n_per = {"gaussian": 60, "knn": 50, "kde": 30, "geometric_knn": 8, "poisson": 60} if quick else \
+    n_per = {"gaussian": 60, "knn": 50, "kde": 30, "geometric_knn": 14, "poisson": 60} if quick else \
             {"gaussian": 3000, "knn": 2500, "kde": 1200, "geometric_knn": 250, "poisson": 3000}
     pc_cases, pc_pf, pc_desc, pc_match = [], [], [], []
 
@@ -286,7 +286,7 @@ def run(chk):
                                                                                                    row_permutation=perm.tolist(), transformed_value=v_ip),
                                   {"site": f"{name}/{'Z present' if cond else 'Z absent'}", "transform": "row_perm"})
             tiny = (name == "knn" and scale is not None and scale > 2 ** 22)
-            if not counts and not tiny and name in ("knn", "geometric_knn", "kde", "gaussian") and rng.random() < 0.25:
+            if not counts and not tiny and name in ("knn", "geometric_knn", "kde", "gaussian") and rng.random() < (0.6 if name == "geometric_knn" else 0.25):
                 # (not for tiny-amplitude samples: integer ranks of size N beside coordinates of size 1e-9 make the joint distances tie
                 # in floating point -- rank differences swallow the other coordinates -- and tied samples are outside the property)
                 # mixed storage types: X as tie-free integer ranks or float32, Y / Z float64 -- the roles of X and Y must still be exchangeable
@@ -429,6 +429,30 @@ def run(chk):
         chk.case(key=("pcw", route, W.tobytes(), kx, ky, kz), nontrivial=(kx == ky), sample=None)
         chk.count("poisson_conditional_widths.samples")
         chk.count(f"poisson_conditional_widths.kx{kx}_ky{ky}")
+    # geometric estimator on longer low-dimensional samples with k >= 3 (many points share their (k+1)-point neighbourhood with a
+    # neighbour): sample order only
+    for t in range(6 if quick else 120):
+        N = int(rng.integers(60, 121))
+        kk = int(rng.choice([3, 4, 6]))
+        W = rng.normal(size=(N, 3)) @ (np.eye(3) + 0.5 * rng.normal(size=(3, 3)))
+        X, Y, Z = W[:, :1].copy(), W[:, 1:2].copy(), (W[:, 2:].copy() if t % 3 else None)
+        via = ["direct", "dispatcher"][t % 2]
+        s_ = {"k": kk} if Z is not None else {}
+        try:
+            v0 = call("geometric_knn", via, X, Y, Z, s_)
+            perm = rng.permutation(N) if t % 2 else np.arange(N)[::-1]
+            v1 = call("geometric_knn", via, X[perm], Y[perm], None if Z is None else Z[perm], s_)
+        except Exception as e:
+            chk.count(f"geometric_long.rejected.{type(e).__name__}")
+            continue
+        chk.case(key=("geo_long", W.tobytes(), kk, via, Z is None), nontrivial=True)
+        chk.count("geometric_knn.long_low_dimensional_samples")
+        if math.isfinite(v0) and not close(v0, v1):
+            chk.violation("counterexample", f"geometric_knn estimator ({via}, {'Z present' if Z is not None else 'Z absent'}, k={kk}, N={N}): value {v0} "
+                          f"becomes {v1} after jointly re-ordering the rows",
+                          {"estimator": "geometric_knn", "via": via, "settings": s_, "X": X.tolist(), "Y": Y.tolist(),
+                           "Z": None if Z is None else Z.tolist(), "row_permutation": perm.tolist(), "value": v0, "transformed_value": v1},
+                          {"site": f"geometric_knn/{'Z present' if Z is not None else 'Z absent'}", "transform": "row_perm"})
     # purity on samples far from the origin (offset 1e3 .. 1e6 x spread), every estimator incl. the geometric one and its entropy function:
     # only "equal arguments give equal results and the argument arrays are not modified" is checked here (no invariance comparison)
     from scipy.spatial.distance import cdist as _cdist
